@@ -65,61 +65,234 @@ Proof.
   intros H. rewrite enc_Cons. pose proof (blen_encs_in x k H). unfold blen in *. cbn [length]. rewrite app_length. lia.
 Qed.
 
-(* the optional members gopki writes pass Go's checks: [1] holds a BIT STRING without unused bits *)
-Lemma opt_fields_generated pub : opt_fields_ok [der_explicit 1 (der_bits_full pub)] = true.
+(* ---- the struct-directed reader on what the strict encoder writes *)
+Definition go_len (n : N) : Prop := n < 2147483648.
+
+Lemma go_len_ok n : go_len n -> len_ok n.
+Proof. unfold go_len, len_ok. intros H. assert (2147483648 <= 2 ^ 1008) by (apply N.leb_le; vm_compute; reflexivity). lia. Qed.
+
+Lemma take_n_app (a b : bytes) : take_n (blen a) (a ++ b) = Some (a, b).
+Proof. rewrite take_n_take. unfold blen. rewrite Nat2N.id. apply take_app. Qed.
+
+Lemma go_hdr_enc c k t body r : t < 31 -> go_len (blen body) ->
+  go_hdr (ident c k t :: enc_len (blen body) ++ body ++ r) = Some (c, k, t, blen body, body ++ r).
 Proof.
-  unfold opt_fields_ok, der_explicit, der_bits_full, der_bits. cbn iota beta.
+  intros Ht Hl. unfold go_hdr. rewrite dec_ident_ident by exact Ht.
+  rewrite dec_len_enc_len by (apply go_len_ok; exact Hl).
+  replace (blen body <? 2147483648) with true by (unfold go_len in Hl; lia). reflexivity.
+Qed.
+
+Lemma go_hdr_enc_nil c k t body : t < 31 -> go_len (blen body) ->
+  go_hdr (ident c k t :: enc_len (blen body) ++ body) = Some (c, k, t, blen body, body).
+Proof. intros Ht Hl. pose proof (go_hdr_enc c k t body [] Ht Hl) as H. rewrite !app_nil_r in H. exact H. Qed.
+
+Lemma take_n_all (a : bytes) : take_n (blen a) a = Some (a, []).
+Proof. pose proof (take_n_app a []) as H. rewrite app_nil_r in H. exact H. Qed.
+
+Lemma go_req_prim t v r : t < 31 -> go_len (blen v) -> go_req t false (enc (Prim Univ t v) ++ r) = Some (v, r).
+Proof.
+  intros Ht Hl. unfold go_req. cbn [enc]. cbn [app]. rewrite <- app_assoc. rewrite go_hdr_enc by assumption.
+  cbn [is_univ andb]. rewrite N.eqb_refl. cbn [Bool.eqb andb]. apply take_n_app.
+Qed.
+
+Lemma go_req_cons t k r : t < 31 -> go_len (blen (encs k)) -> go_req t true (enc (Cons Univ t k) ++ r) = Some (encs k, r).
+Proof.
+  intros Ht Hl. unfold go_req. rewrite enc_Cons. cbn [app]. rewrite <- app_assoc. rewrite go_hdr_enc by assumption.
+  cbn [is_univ andb]. rewrite N.eqb_refl. cbn [Bool.eqb andb]. apply take_n_app.
+Qed.
+
+Lemma encs_cons x k : encs (x :: k) = enc x ++ encs k.
+Proof. reflexivity. Qed.
+
+Lemma blen_enc_pos x : 1 <= blen (enc x).
+Proof. pose proof (enc_length_pos x). unfold blen. lia. Qed.
+
+(* sizes: every part of an encoding is no longer than the whole *)
+Lemma blen_encs_cons x k : blen (encs (x :: k)) = blen (enc x) + blen (encs k).
+Proof. rewrite encs_cons. apply blen_app. Qed.
+
+Lemma blen_nil : blen (@nil byte) = 0.
+Proof. reflexivity. Qed.
+
+Ltac norm_sizes := repeat rewrite blen_encs_cons in *; cbn [encs] in *; rewrite ?blen_nil in *.
+
+Lemma blen_cons_body c t k : blen (encs k) <= blen (enc (Cons c t k)).
+Proof. rewrite enc_Cons. unfold blen. cbn [length]. rewrite app_length. lia. Qed.
+
+(* the [1] member gopki writes: not taken for a [0] member, read as a BIT STRING without unused bits *)
+Lemma go_bits_full pub : go_bits_ok (n2b ((8 - (8 * blen pub) mod 8) mod 8) :: pub) = true.
+Proof.
   replace ((8 - (8 * blen pub) mod 8) mod 8) with 0 by (rewrite N.mul_comm, N.mod_mul by lia; reflexivity).
   unfold go_bits_ok. rewrite b2n_n2b by lia. cbn [N.leb N.ltb andb negb].
   destruct pub as [|x pub]; [reflexivity|]. cbn [N.pow]. rewrite N.mod_1_r. reflexivity.
+Qed.
+
+Lemma optional_members_generated pub r : go_len (blen (enc (der_explicit 1 (der_bits_full pub)))) ->
+  go_opt_explicit 0 6 (enc (der_explicit 1 (der_bits_full pub)) ++ r) = OAbsent /\
+  exists v, go_opt_explicit 1 3 (enc (der_explicit 1 (der_bits_full pub)) ++ r) = OPresent v r /\ go_bits_ok v = true.
+Proof.
+  intros Hl. unfold der_explicit, der_bits_full, der_bits in *.
+  set (v := n2b ((8 - (8 * blen pub) mod 8) mod 8) :: pub) in *.
+  pose proof (blen_cons_body Ctx 1 [Prim Univ 3 v]) as B1.
+  pose proof (blen_prim Univ 3 v) as B2.
+  assert (encs [Prim Univ 3 v] = enc (Prim Univ 3 v)) as E1 by (cbn [encs]; apply app_nil_r).
+  rewrite E1 in B1.
+  assert (go_len (blen (encs [Prim Univ 3 v]))) as L1 by (rewrite E1; unfold go_len in *; lia).
+  assert (go_len (blen v)) as L2 by (unfold go_len in *; lia).
+  assert (exists i rest, enc (Prim Univ 3 v) ++ r = i :: rest) as (i0 & rest0 & Ne) by (cbn [enc app]; eauto).
+  assert (blen (encs [Prim Univ 3 v]) <> 0) as Nz by (rewrite E1; pose proof (blen_enc_pos (Prim Univ 3 v)); lia).
+  rewrite enc_Cons. cbn [app]. rewrite <- app_assoc.
+  split.
+  - unfold go_opt_explicit. rewrite go_hdr_enc by (try lia; assumption). rewrite E1, Ne.
+    cbn [is_ctx andb]. replace (1 =? 0) with false by reflexivity. reflexivity.
+  - exists v. split; [|apply go_bits_full].
+    unfold go_opt_explicit. rewrite go_hdr_enc by (try lia; assumption). rewrite E1 in *. rewrite Ne.
+    cbn [is_ctx andb]. rewrite N.eqb_refl. cbn [orb andb].
+    replace (blen (enc (Prim Univ 3 v)) =? 0) with false by (symmetry; apply N.eqb_neq; exact Nz).
+    rewrite <- Ne. cbn [enc]. cbn [app]. rewrite <- app_assoc. rewrite go_hdr_enc by (try lia; assumption).
+    cbn [is_univ andb negb]. rewrite N.eqb_refl. cbn [andb]. rewrite take_n_app. reflexivity.
+Qed.
+
+(* the two algorithm identifiers and the ten curve identifiers read back through Go's reader *)
+Lemma go_oid_tables :
+  forallb (fun o => match der_oid o with
+                    | Some (Prim Univ 6 c) => (match go_oid c with Some o' => oid_eqb o' o | None => false end) && (blen c <? 128)
+                    | _ => false end)
+          (oid_ec_public_key :: oid_rsa_encryption ::
+           flat_map (fun c => match curve_oid c with Some co => [co] | None => [] end) ec_curves) = true.
+Proof. vm_compute. reflexivity. Qed.
+
+Lemma oid_eqb_eq a b : oid_eqb a b = true -> a = b.
+Proof.
+  unfold oid_eqb. revert b. induction a as [|x a IH]; intros [|y b] H; cbn in H; try discriminate; [reflexivity|].
+  apply andb_prop in H as [H1 H2]. apply andb_prop in H2 as [H2 H3].
+  apply N.eqb_eq in H2. subst y. f_equal. apply IH. cbn [length] in H1. rewrite H1. exact H3.
+Qed.
+
+Lemma go_oid_known o : In o (oid_ec_public_key :: oid_rsa_encryption ::
+           flat_map (fun c => match curve_oid c with Some co => [co] | None => [] end) ec_curves) ->
+  exists c, tlv_oid o = Prim Univ 6 c /\ go_oid c = Some o /\ blen c < 128.
+Proof.
+  intros Hin. pose proof go_oid_tables as T. rewrite forallb_forall in T. specialize (T o Hin).
+  unfold tlv_oid. destruct (der_oid o) as [[cl t c|]|]; try discriminate T.
+  destruct cl; try discriminate T. destruct t as [|t]; try discriminate T.
+  do 3 (destruct t as [t|t|]; try discriminate T).
+  apply andb_prop in T as [T1 T2]. destruct (go_oid c) as [o'|] eqn:G; try discriminate T1.
+  apply oid_eqb_eq in T1. subst o'. exists c. split; [reflexivity|]. split; [exact G|]. apply N.ltb_lt. exact T2.
+Qed.
+
+Lemma curve_oid_known c co : In c ec_curves -> curve_oid c = Some co ->
+  In co (oid_ec_public_key :: oid_rsa_encryption :: flat_map (fun c => match curve_oid c with Some co => [co] | None => [] end) ec_curves).
+Proof.
+  intros Hin H. right. right. apply in_flat_map. exists c. split; [exact Hin|]. rewrite H. left. reflexivity.
 Qed.
 
 Section Roundtrip.
   Variable base_mult : keyalg -> N -> bytes.
   Variable order : keyalg -> N.
 
-  (* C17 (elliptic curves): every scalar below the group order survives write and read, with the fixed-width
+  (* the outer structure both key kinds share: version 0, algorithm identifier with one parameter element, key octets *)
+  Lemma go_pkcs8_struct_written a pa body :
+    In a [oid_ec_public_key; oid_rsa_encryption] ->
+    wf pa = true -> 
+    go_len (blen (enc (der_seq [der_int 0; der_seq [tlv_oid a; pa]; der_octets body]))) ->
+    go_pkcs8_struct (enc (der_seq [der_int 0; der_seq [tlv_oid a; pa]; der_octets body])) = Some (a, enc pa, body).
+  Proof.
+    intros Ha Wp Hl.
+    assert (In a (oid_ec_public_key :: oid_rsa_encryption ::
+                  flat_map (fun c => match curve_oid c with Some co => [co] | None => [] end) ec_curves)) as Ha'
+        by (destruct Ha as [<-|[<-|[]]]; [left|right; left]; reflexivity).
+    destruct (go_oid_known a Ha') as (ac & Ea & Ga & La).
+    set (algs := der_seq [tlv_oid a; pa]) in *.
+    unfold der_seq at 1 in Hl. unfold der_seq at 1.
+    pose proof (blen_cons_body Univ 16 [der_int 0; algs; der_octets body]) as B0.
+    pose proof (blen_cons_body Univ 16 [tlv_oid a; pa]) as B1. fold (der_seq [tlv_oid a; pa]) in B1. fold algs in B1.
+    norm_sizes.
+    pose proof (blen_prim Univ 4 body) as B2. fold (der_octets body) in B2.
+    pose proof (blen_prim Univ 2 (int_content 0)) as B3. fold (der_int 0) in B3.
+    unfold go_len in *.
+    unfold go_pkcs8_struct.
+    rewrite <- (app_nil_r (enc (Cons Univ 16 _))).
+    rewrite go_req_cons by (try lia; unfold go_len; norm_sizes; lia).
+    rewrite encs_cons. unfold der_int at 1. rewrite go_req_prim by (try lia; unfold go_len; lia).
+    replace (go_int (int_content 0)) with (Some 0%Z) by (vm_compute; reflexivity).
+    rewrite encs_cons. unfold algs at 1, der_seq at 1.
+    rewrite go_req_cons by (try lia; unfold go_len; norm_sizes; lia).
+    rewrite encs_cons. rewrite Ea.
+    rewrite go_req_prim by (try lia; unfold go_len; lia). rewrite Ga.
+    (* the parameter element: header and content, nothing after it *)
+    cbn [encs]. rewrite !app_nil_r.
+    destruct (enc_nonempty pa) as (i & r & Ep).
+    assert (go_len (blen (enc pa))) as Lp by (unfold go_len; lia).
+    assert (match go_hdr (enc pa) with
+            | Some (_, _, _, n, r0) => match take_n n r0 with
+                                       | Some (_, rest) => Some (firstn (length (enc pa) - length rest) (enc pa))
+                                       | None => None end
+            | None => None end = Some (enc pa)) as Pp.
+    { destruct pa as [c t v|c t k].
+      - cbn [wf] in Wp. apply N.ltb_lt in Wp. cbn [enc].
+        cbn [enc] in Lp. unfold go_len, blen in Lp. cbn [length] in Lp. rewrite app_length in Lp.
+        rewrite go_hdr_enc_nil by (try lia; unfold go_len, blen; lia).
+        rewrite take_n_all. rewrite Nat.sub_0_r. rewrite firstn_all. reflexivity.
+      - rewrite wf_Cons in Wp. apply andb_prop in Wp as [Wp _]. apply N.ltb_lt in Wp. rewrite enc_Cons.
+        rewrite enc_Cons in Lp. unfold go_len, blen in Lp. cbn [length] in Lp. rewrite app_length in Lp.
+        rewrite go_hdr_enc_nil by (try lia; unfold go_len, blen; lia).
+        rewrite take_n_all. rewrite Nat.sub_0_r. rewrite firstn_all. reflexivity. }
+    rewrite Ep in Pp |- *. rewrite Pp.
+    unfold der_octets. rewrite <- (app_nil_r (enc (Prim Univ 4 body))).
+    rewrite go_req_prim by (try lia; unfold go_len; lia). reflexivity.
+  Qed.
+
+  (* C17 (elliptic curves): every scalar from 1 to order - 1 survives write and read, with the fixed-width
      encoding (leading zero octets kept); the public point is recomputed from the scalar *)
   Theorem pkcs8_ec_roundtrip c d pub w co bs :
     In c ec_curves -> scalar_width c = Some w -> curve_oid c = Some co ->
-    d < order c -> order c <= 256 ^ N.of_nat w ->
+    0 < d -> d < order c -> order c <= 256 ^ N.of_nat w ->
     marshal_pkcs8 (KEc c d pub) = Some bs ->
-    (* sizes stay within what DER lengths can express *)
-    len_ok (blen bs) ->
+    (* Go's asn1 refuses lengths of 2^31 and more *)
+    go_len (blen bs) ->
     parse_pkcs8 base_mult order bs = Some (KEc c d (base_mult c d)).
   Proof.
-    intros Hin Hw Hco Hd Ho Hm Hlen. unfold marshal_pkcs8 in Hm. rewrite Hw, Hco in Hm.
+    intros Hin Hw Hco Hd0 Hd Ho Hm Hlen. unfold marshal_pkcs8 in Hm. rewrite Hw, Hco in Hm.
     destruct (fill_bytes_spec w d ltac:(lia)) as (sc & Fs & Ls & Vs).
     unfold ec_private_key in Hm. rewrite Fs in Hm.
     remember (der_seq [der_int 1; der_octets sc; der_explicit 1 (der_bits_full pub)]) as inner eqn:Ei.
     remember (der_seq [der_int 0; der_seq [tlv_oid oid_ec_public_key; tlv_oid co]; der_octets (enc inner)]) as outer eqn:Eo.
-    injection Hm as <-.
-    assert (wf inner = true) as Wi by (rewrite Ei; reflexivity).
-    assert (wf outer = true) as Wo.
-    { rewrite Eo. unfold der_seq. rewrite wf_Cons. cbn [wfs]. rewrite wf_Cons. cbn [wfs].
-      rewrite !wf_tlv_oid. reflexivity. }
-    assert (len_ok (blen (enc inner))) as Li.
-    { unfold len_ok in *.
-      pose proof (blen_prim Univ 4 (enc inner)) as B1.
-      assert (blen (enc (der_octets (enc inner))) <= blen (enc outer)) as B2.
-      { rewrite Eo. unfold der_seq. apply blen_cons_in. right. right. left. reflexivity. }
-      unfold der_octets in B2. lia. }
-    unfold parse_pkcs8, parse_all.
-    pose proof (parse_enc outer [] Wo Hlen) as Po. rewrite app_nil_r in Po. rewrite Po.
-    rewrite Eo at 1. cbn [der_seq der_int der_octets].
-    (* algorithm and curve identifiers read back *)
-    assert (dec_oid' (tlv_oid oid_ec_public_key) = Some oid_ec_public_key) as A1 by (vm_compute; reflexivity).
-    rewrite A1. replace (oid_eqb oid_ec_public_key oid_rsa_encryption) with false by (vm_compute; reflexivity).
+    injection Hm as <-. rewrite Eo in Hlen |- *. clear Eo outer.
+    pose proof (curve_oid_known c co Hin Hco) as Kco.
+    destruct (go_oid_known co Kco) as (cc & Ec & Gc & Lc).
+    unfold parse_pkcs8.
+    rewrite go_pkcs8_struct_written by (first [exact Hlen | apply wf_tlv_oid | (right; left; reflexivity) | (left; reflexivity) | reflexivity]).
+    replace (oid_eqb oid_ec_public_key oid_rsa_encryption) with false by (vm_compute; reflexivity).
     replace (oid_eqb oid_ec_public_key oid_ec_public_key) with true by (vm_compute; reflexivity).
-    assert (dec_oid' (tlv_oid co) = Some co) as A2.
-    { destruct c; cbn in Hin; try (exfalso; intuition discriminate); cbn in Hco; inversion Hco; subst; vm_compute; reflexivity. }
-    rewrite A2, (curve_of_oid_roundtrip c co Hin Hco).
-    unfold parse_ec_private_key, parse_all.
-    pose proof (parse_enc inner [] Wi Li) as Pi. rewrite app_nil_r in Pi. rewrite Pi.
-    rewrite Ei at 1. cbn [der_seq der_int der_octets]. rewrite int_roundtrip.
-    change (opt_fields_ok [der_explicit 1 (der_bits_full pub)]) with (opt_fields_ok [der_explicit 1 (der_bits_full pub)]).
-    rewrite opt_fields_generated. cbn [negb]. rewrite Hw, Vs, Ls.
-    replace (d <? order c) with true by lia. rewrite Nat.leb_refl. reflexivity.
+    rewrite Ec. rewrite <- (app_nil_r (enc (Prim Univ 6 cc))).
+    rewrite go_req_prim by (try lia; unfold go_len; lia). rewrite Gc.
+    (* sizes of the inner structure *)
+    assert (go_len (blen (enc inner))) as Li.
+    { unfold go_len in *.
+      pose proof (blen_prim Univ 4 (enc inner)) as B1.
+      assert (blen (enc (der_octets (enc inner))) <= blen (enc (der_seq [der_int 0; der_seq [tlv_oid oid_ec_public_key; tlv_oid co]; der_octets (enc inner)]))) as B2.
+      { unfold der_seq at 1. apply blen_cons_in. right. right. left. reflexivity. }
+      fold (der_octets (enc inner)) in B1. lia. }
+    unfold parse_ec_private_key, go_ec_struct.
+    rewrite Ei. unfold der_seq.
+    pose proof (blen_cons_body Univ 16 [der_int 1; der_octets sc; der_explicit 1 (der_bits_full pub)]) as B0.
+    fold (der_seq [der_int 1; der_octets sc; der_explicit 1 (der_bits_full pub)]) in B0. rewrite <- Ei in B0.
+    norm_sizes.
+    pose proof (blen_prim Univ 4 sc) as B2. fold (der_octets sc) in B2.
+    pose proof (blen_prim Univ 2 (int_content 1)) as B3. fold (der_int 1) in B3.
+    unfold go_len in *.
+    rewrite <- (app_nil_r (enc (Cons Univ 16 _))).
+    rewrite go_req_cons by (try lia; unfold go_len; norm_sizes; lia).
+    rewrite encs_cons. unfold der_int at 1. rewrite go_req_prim by (try lia; unfold go_len; lia).
+    replace (go_int (int_content 1)) with (Some 1%Z) by (vm_compute; reflexivity).
+    rewrite encs_cons. unfold der_octets at 1. rewrite go_req_prim by (try lia; unfold go_len; lia).
+    cbn [encs]. rewrite app_nil_r.
+    rewrite <- (app_nil_r (enc (der_explicit 1 (der_bits_full pub)))).
+    destruct (optional_members_generated pub [] ltac:(unfold go_len; lia)) as (O0 & v & O1 & Bv).
+    rewrite O0, O1, Bv.
+    rewrite (curve_of_oid_roundtrip c co Hin Hco). rewrite Hw, Vs, Ls.
+    replace (0 <? d) with true by lia. replace (d <? order c) with true by lia. rewrite Nat.leb_refl. reflexivity.
   Qed.
 End Roundtrip.
 
@@ -129,28 +302,23 @@ Section RoundtripRsa.
 
   (* C17 (RSA): all eight numbers of the PKCS#1 structure survive write and read, for every size *)
   Theorem pkcs8_rsa_roundtrip n e d p q dp dq qinv bs :
-    marshal_pkcs8 (KRsa n e d p q dp dq qinv) = Some bs -> len_ok (blen bs) ->
+    marshal_pkcs8 (KRsa n e d p q dp dq qinv) = Some bs -> go_len (blen bs) ->
     parse_pkcs8 base_mult order bs = Some (KRsa n e d p q dp dq qinv).
   Proof.
     intros Hm Hlen. unfold marshal_pkcs8 in Hm.
     remember (der_seq (map (fun x => der_int (Z.of_N x)) [0; n; e; d; p; q; dp; dq; qinv])) as inner eqn:Ei.
     remember (der_seq [der_int 0; der_seq [tlv_oid oid_rsa_encryption; der_null]; der_octets (enc inner)]) as outer eqn:Eo.
-    injection Hm as <-.
+    injection Hm as <-. rewrite Eo in Hlen |- *. clear Eo outer.
     assert (wf inner = true) as Wi by (rewrite Ei; reflexivity).
-    assert (wf outer = true) as Wo.
-    { rewrite Eo. unfold der_seq. rewrite wf_Cons. cbn [wfs]. rewrite wf_Cons. cbn [wfs].
-      rewrite !wf_tlv_oid. reflexivity. }
     assert (len_ok (blen (enc inner))) as Li.
-    { unfold len_ok in *.
+    { apply go_len_ok. unfold go_len in *.
       pose proof (blen_prim Univ 4 (enc inner)) as B1.
-      assert (blen (enc (der_octets (enc inner))) <= blen (enc outer)) as B2.
-      { rewrite Eo. unfold der_seq. apply blen_cons_in. right. right. left. reflexivity. }
-      unfold der_octets in B2. lia. }
-    unfold parse_pkcs8, parse_all.
-    pose proof (parse_enc outer [] Wo Hlen) as Po. rewrite app_nil_r in Po. rewrite Po.
-    rewrite Eo at 1. cbn [der_seq der_int der_octets].
-    assert (dec_oid' (tlv_oid oid_rsa_encryption) = Some oid_rsa_encryption) as A1 by (vm_compute; reflexivity).
-    rewrite A1. replace (oid_eqb oid_rsa_encryption oid_rsa_encryption) with true by (vm_compute; reflexivity).
+      assert (blen (enc (der_octets (enc inner))) <= blen (enc (der_seq [der_int 0; der_seq [tlv_oid oid_rsa_encryption; der_null]; der_octets (enc inner)]))) as B2.
+      { unfold der_seq at 1. apply blen_cons_in. right. right. left. reflexivity. }
+      fold (der_octets (enc inner)) in B1. lia. }
+    unfold parse_pkcs8.
+    rewrite go_pkcs8_struct_written by (first [exact Hlen | apply wf_tlv_oid | (right; left; reflexivity) | (left; reflexivity) | reflexivity]).
+    replace (oid_eqb oid_rsa_encryption oid_rsa_encryption) with true by (vm_compute; reflexivity).
     pose proof (parse_enc inner [] Wi Li) as Pi. rewrite app_nil_r in Pi. unfold parse_all. rewrite Pi.
     rewrite Ei at 1. cbn [der_seq map map_opt der_int]. rewrite !int_roundtrip.
     cbn [Z.of_N forallb]. 
@@ -163,7 +331,7 @@ End RoundtripRsa.
 Print Assumptions pkcs8_rsa_roundtrip.
 
 (* C17, rejection: whatever the parser accepts is a key of a supported kind - an EC key on one of the ten curves whose scalar
-   is below the group order (the public point is recomputed from it), or an RSA key record of non-negative numbers *)
+   lies between 1 and the group order - 1 (the public point is recomputed from it), or an RSA key record of non-negative numbers *)
 Lemma curve_of_oid_in o c : curve_of_oid o = Some c -> In c ec_curves.
 Proof. unfold curve_of_oid. intros H. apply find_some in H as [H _]. exact H. Qed.
 
@@ -171,20 +339,26 @@ Ltac peel H :=
   repeat match type of H with
          | (match ?X with _ => _ end) = Some _ => let E := fresh "E" in destruct X eqn:E; try discriminate H
          | (if ?X then _ else _) = Some _ => let E := fresh "E" in destruct X eqn:E; try discriminate H
+         | (let '(_, _) := ?X in _) = Some _ => let E := fresh "E" in destruct X eqn:E
          end.
 
 Theorem parse_accepts_only_supported_keys base_mult order bs k :
   parse_pkcs8 base_mult order bs = Some k ->
   match k with
-  | KEc c d pub => exists w, scalar_width c = Some w /\ d < order c /\ pub = base_mult c d
+  | KEc c d pub => In c ec_curves /\ exists w, scalar_width c = Some w /\ 0 < d /\ d < order c /\ pub = base_mult c d
   | KRsa _ _ _ _ _ _ _ _ => True
   end.
 Proof.
   unfold parse_pkcs8, parse_ec_private_key. intros H.
   destruct k as [c d pub|]; [|exact I].
-  peel H; inversion H; subst; clear H;
-    match goal with
-    | Hw : scalar_width ?c = Some ?w, Ho : (_ <? order ?c) && _ = true |- _ =>
-      exists w; apply andb_prop in Ho as [Ho _]; apply N.ltb_lt in Ho; repeat split; assumption
-    end.
+  peel H; inversion H; subst; clear H.
+  match goal with
+  | Hc : match _ with Some _ => _ | None => _ end = Some ?c, Hw : scalar_width ?c = Some ?w, Ho : (_ <? _) && (_ <? order ?c) && _ = true |- _ =>
+    split;
+    [ repeat match type of Hc with
+             | match ?X with _ => _ end = Some _ => destruct X; try discriminate Hc
+             end; apply (curve_of_oid_in _ _ Hc)
+    | exists w; apply andb_prop in Ho as [Ho _]; apply andb_prop in Ho as [Ho0 Ho]; apply N.ltb_lt in Ho; apply N.ltb_lt in Ho0;
+      repeat split; assumption ]
+  end.
 Qed.
